@@ -194,6 +194,8 @@ class Agg:
 # --------------------------------------------------------------------------------------------
 
 KNOWN_FILE = os.path.join(VERIF, "known_findings.json")
+# runs against a scratch copy (mutants) must not overwrite the evidence / replays of the real tree
+OUT_DIR = os.environ.get("MCK_OUT_DIR") or (VERIF if not os.environ.get("MCK_REPO") else "/var/tmp/mck-mutant-out")
 
 
 def load_known(prop: str) -> List[dict]:
@@ -284,8 +286,8 @@ def write_evidence(prop: str, tier: str, seed: int, level: str, coverage: dict, 
         "wall_s": round(wall, 3),
         "violations": nviol,
     }
-    os.makedirs(os.path.join(VERIF, "evidence"), exist_ok=True)
-    path = os.path.join(VERIF, "evidence", f"{prop}.json")
+    os.makedirs(os.path.join(OUT_DIR, "evidence"), exist_ok=True)
+    path = os.path.join(OUT_DIR, "evidence", f"{prop}.json")
     tmp = path + ".tmp"
     with open(tmp, "w") as f:
         json.dump(ev, f, indent=1, sort_keys=True, default=str)
@@ -368,7 +370,7 @@ def run_check(modname: str, tier: str, seed: int, jobs: Optional[int] = None) ->
     known_hit: Dict[str, dict] = {}
     reported: List[dict] = []
     harness_nondet = False
-    os.makedirs(os.path.join(VERIF, "replays", prop), exist_ok=True)
+    os.makedirs(os.path.join(OUT_DIR, "replays", prop), exist_ok=True)
     unknown = []
     for key, v in sorted(agg.viols.items()):
         e = match_known(known, v["sig"])
@@ -380,7 +382,7 @@ def run_check(modname: str, tier: str, seed: int, jobs: Optional[int] = None) ->
     max_report = int(os.environ.get("MCK_MAX_REPORT", "8"))
     for v in unknown[:max_report]:
         rid = f"{h64(v['key'] + json.dumps(v['case'], sort_keys=True, default=str)):016x}"
-        path = os.path.join(VERIF, "replays", prop, f"{rid}.json")
+        path = os.path.join(OUT_DIR, "replays", prop, f"{rid}.json")
         with open(path, "w") as f:
             json.dump({"property": prop, "sig": v["sig"], "msg": v["msg"], "case": v["case"]}, f, indent=1, default=str)
             f.write("\n")
